@@ -785,8 +785,13 @@ def _len_tests(tree, bump):
         # bool(X) in a boolean position is X
         class B(ast.NodeTransformer):
             def unb(self, e):
-                if isinstance(e, ast.Call) and isinstance(e.func, ast.Name) and e.func.id == "bool" and len(e.args) == 1 and not e.keywords and getattr(e, "_synth", True):
-                    return e.args[0]
+                if isinstance(e, ast.Call) and isinstance(e.func, ast.Name) and e.func.id == "bool" and len(e.args) == 1 and not e.keywords:
+                    a = e.args[0]
+                    # written by hand around something that is already a bool (a cautious maintainer's redundancy): the same test
+                    already = isinstance(a, (ast.Compare, ast.BoolOp)) or isinstance(a, ast.UnaryOp) and isinstance(a.op, ast.Not) or \
+                        isinstance(a, ast.Call) and isinstance(a.func, ast.Name) and a.func.id in ("callable", "isinstance", "issubclass", "hasattr", "any", "all", "bool")
+                    if getattr(e, "_synth", True) or already:
+                        return a
                 return e
 
             def visit_If(self, n):
@@ -915,6 +920,8 @@ def _immutable_constant(v):
         return _immutable_constant(v.operand)
     if isinstance(v, ast.BinOp):
         return _immutable_constant(v.left) and _immutable_constant(v.right)
+    if isinstance(v, ast.Call) and ast.unparse(v.func) == "re.compile" and 1 <= len(v.args) <= 2 and not v.keywords and all(_immutable_constant(a) or _simple_arg(a) for a in v.args):
+        return True       # a compiled pattern: `P.split(s)` is `re.split(<pattern>, s)`
     if isinstance(v, ast.Call) and isinstance(v.func, ast.Name) and v.func.id in ("frozenset", "tuple") and not v.keywords and len(v.args) <= 1:
         return all(isinstance(a, (ast.Set, ast.List, ast.Tuple)) and all(_immutable_constant(e) for e in a.elts) or _immutable_constant(a) for a in v.args)
     return False
@@ -972,6 +979,15 @@ def propagate_new_constants(tree, modname, known_names, stats):
             return n
     P().visit(tree)
     _frozenset_in_equality(tree)
+    # re.compile(P[, F]).method(args) is re.method(P, args[, flags=F])
+    for n in ast.walk(tree):
+        if isinstance(n, ast.Call) and isinstance(n.func, ast.Attribute) and n.func.attr in ("split", "match", "search", "fullmatch", "sub", "subn", "findall", "finditer") \
+                and isinstance(n.func.value, ast.Call) and ast.unparse(n.func.value.func) == "re.compile" and not n.func.value.keywords and 1 <= len(n.func.value.args) <= 2:
+            comp = n.func.value
+            n.func = loc(ast.Attribute(value=ast.Name(id="re", ctx=ast.Load()), attr=n.func.attr, ctx=ast.Load()), n.func)
+            n.args = [comp.args[0]] + list(n.args)
+            if len(comp.args) == 2:
+                n.keywords = list(n.keywords) + [ast.keyword(arg="flags", value=comp.args[1])]
     for nm, (st, _) in consts.items():
         tree.body.remove(st)
     for nm, (c, m, _) in cconsts.items():
@@ -1347,6 +1363,80 @@ def canon_block(block, fn, counts):
                 counts["setdefault->test-and-store"] = counts.get("setdefault->test-and-store", 0) + 1
                 i += 2
                 continue
+        # T = T + k / T = T - k  (k a number)   ->   T += k / T -= k
+        if isinstance(st, ast.Assign) and len(st.targets) == 1 and isinstance(st.value, ast.BinOp) and isinstance(st.value.op, (ast.Add, ast.Sub)) \
+                and isinstance(st.value.right, ast.Constant) and type(st.value.right.value) in (int, float) and _simple_arg_or_item(st.targets[0]) \
+                and ast.unparse(st.value.left) == ast.unparse(st.targets[0]):
+            block[i] = loc(ast.AugAssign(target=st.targets[0], op=st.value.op, value=st.value.right), st)
+            counts["x = x + k -> x += k"] = counts.get("x = x + k -> x += k", 0) + 1
+            continue
+        # A = T[0] ; B = list(T[1:])   ->   A, *B = T
+        if isinstance(st, ast.Assign) and isinstance(nxt, ast.Assign) and len(st.targets) == 1 and len(nxt.targets) == 1 and isinstance(st.targets[0], ast.Name) \
+                and isinstance(nxt.targets[0], ast.Name) and isinstance(st.value, ast.Subscript) and isinstance(st.value.value, ast.Name) \
+                and isinstance(st.value.slice, ast.Constant) and st.value.slice.value == 0 and isinstance(nxt.value, ast.Call) and isinstance(nxt.value.func, ast.Name) \
+                and nxt.value.func.id == "list" and len(nxt.value.args) == 1 and isinstance(nxt.value.args[0], ast.Subscript) and isinstance(nxt.value.args[0].slice, ast.Slice) \
+                and ast.unparse(nxt.value.args[0]) == f"{st.value.value.id}[1:]" and st.targets[0].id != st.value.value.id:
+            tgt = ast.Tuple(elts=[ast.Name(id=st.targets[0].id, ctx=ast.Store()), ast.Starred(value=ast.Name(id=nxt.targets[0].id, ctx=ast.Store()), ctx=ast.Store())], ctx=ast.Store())
+            block[i:i + 2] = [loc(ast.Assign(targets=[tgt], value=st.value.value), st)]
+            counts["head-and-rest->starred-unpacking"] = counts.get("head-and-rest->starred-unpacking", 0) + 1
+            continue
+        # if c1: F = True elif c2: F = True else: F = False   ->   F = c1 or c2      (every branch assigns a boolean literal to the same name)
+        if isinstance(st, ast.If) and st.orelse:
+            arms, cur_, ok_ = [], st, True
+            while True:
+                if len(cur_.body) == 1 and isinstance(cur_.body[0], ast.Assign) and len(cur_.body[0].targets) == 1 and isinstance(cur_.body[0].targets[0], ast.Name) \
+                        and isinstance(cur_.body[0].value, ast.Constant) and isinstance(cur_.body[0].value.value, bool):
+                    arms.append((cur_.test, cur_.body[0].targets[0].id, cur_.body[0].value.value))
+                else:
+                    ok_ = False
+                    break
+                if len(cur_.orelse) == 1 and isinstance(cur_.orelse[0], ast.If):
+                    cur_ = cur_.orelse[0]
+                    continue
+                last_ = cur_.orelse
+                break
+            if ok_ and len(last_) == 1 and isinstance(last_[0], ast.Assign) and len(last_[0].targets) == 1 and isinstance(last_[0].targets[0], ast.Name) \
+                    and len({a[1] for a in arms} | {last_[0].targets[0].id}) == 1 and not (isinstance(last_[0].value, ast.Constant) and isinstance(last_[0].value.value, bool)) \
+                    and all(v is True for _, _, v in arms) and _simple_arg(last_[0].value):
+                # ... else: F = E  (a flag computed elsewhere): F = c1 or c2 or E
+                block[i] = loc(ast.Assign(targets=[ast.Name(id=arms[0][1], ctx=ast.Store())], value=ast.BoolOp(op=ast.Or(), values=[t for t, _, _ in arms] + [last_[0].value])), st)
+                counts["boolean-flag-chain->expression"] = counts.get("boolean-flag-chain->expression", 0) + 1
+                continue
+            if ok_ and len(last_) == 1 and isinstance(last_[0], ast.Assign) and len(last_[0].targets) == 1 and isinstance(last_[0].targets[0], ast.Name) \
+                    and isinstance(last_[0].value, ast.Constant) and isinstance(last_[0].value.value, bool) and len({a[1] for a in arms} | {last_[0].targets[0].id}) == 1:
+                final = last_[0].value.value
+                if all(v is (not final) for _, _, v in arms):
+                    disj = arms[0][0] if len(arms) == 1 else ast.BoolOp(op=ast.Or(), values=[t for t, _, _ in arms])
+                    val = disj if final is False else negate(disj)
+                    block[i] = loc(ast.Assign(targets=[ast.Name(id=arms[0][1], ctx=ast.Store())], value=val), st)
+                    counts["boolean-flag-chain->expression"] = counts.get("boolean-flag-chain->expression", 0) + 1
+                    continue
+        # X = A ; X = B(X)   (the first X read only there, once)   ->   X = B(A)
+        if isinstance(st, ast.Assign) and len(st.targets) == 1 and isinstance(st.targets[0], ast.Name) and isinstance(nxt, ast.Assign) and len(nxt.targets) == 1 \
+                and isinstance(nxt.targets[0], ast.Name) and nxt.targets[0].id == st.targets[0].id:
+            X = st.targets[0].id
+            reads = [n for n in ast.walk(nxt.value) if isinstance(n, ast.Name) and n.id == X and isinstance(n.ctx, ast.Load)]
+            if len(reads) == 1 and not any(isinstance(n, (ast.Lambda, ast.ListComp, ast.SetComp, ast.DictComp, ast.GeneratorExp, ast.IfExp, ast.BoolOp)) and any(x is reads[0] for x in ast.walk(n))
+                                           for n in ast.walk(nxt.value)):
+                upos_ = (reads[0].lineno, reads[0].col_offset)
+                early_ = [n for n in ast.walk(nxt.value) if isinstance(n, ast.Call) and not any(x is reads[0] for x in ast.walk(n))
+                          and (getattr(n, "end_lineno", n.lineno), getattr(n, "end_col_offset", 0)) <= upos_ and not _pure_call(n)]
+                if not early_:
+                    _replace_node(nxt, reads[0], st.value)
+                    del block[i]
+                    counts["rebound-temporary-folded"] = counts.get("rebound-temporary-folded", 0) + 1
+                    continue
+        # if C: S else: pass   ->   if C: S
+        if isinstance(st, ast.If) and len(st.orelse) == 1 and isinstance(st.orelse[0], ast.Pass):
+            st.orelse = []
+            counts["else-pass-dropped"] = counts.get("else-pass-dropped", 0) + 1
+            continue
+        # a bare `return` / `return None` that ends the function body: falling off the end says the same
+        if block is fn.body and i == len(block) - 1 and i > 0 and isinstance(st, ast.Return) and (st.value is None or isinstance(st.value, ast.Constant) and st.value.value is None) \
+                and not isinstance(fn, ast.Lambda):
+            del block[i]
+            counts["final-return-none-dropped"] = counts.get("final-return-none-dropped", 0) + 1
+            continue
         # if C: pass else: E   ->   if not C: E
         if isinstance(st, ast.If) and len(st.body) == 1 and isinstance(st.body[0], ast.Pass) and st.orelse:
             block[i] = loc(ast.If(test=negate(st.test), body=st.orelse, orelse=[]), st)
@@ -1417,7 +1507,8 @@ def canon_block(block, fn, counts):
                 X = a_.targets[0].id
                 reads = [n for n in ast.walk(nxt) if isinstance(n, ast.Name) and n.id == X and isinstance(n.ctx, ast.Load)]
                 total = [n for n in ast.walk(fn) if isinstance(n, ast.Name) and n.id == X]
-                calm = not any(isinstance(n, (ast.Call, ast.Await, ast.Yield, ast.YieldFrom, ast.NamedExpr, ast.Lambda)) for e in (st.test, a_.value, b_.value) for n in ast.walk(e))
+                calm = not any(isinstance(n, (ast.Await, ast.Yield, ast.YieldFrom, ast.NamedExpr, ast.Lambda)) or isinstance(n, ast.Call) and not _pure_call(n)
+                               for e in (st.test, a_.value, b_.value) for n in ast.walk(e))
                 # C, A, B move behind whatever the statement evaluates before it reads X: only reading calls may stand there
                 upos_ = (reads[0].lineno, reads[0].col_offset) if len(reads) == 1 else (0, 0)
                 early_ = [n for n in ast.walk(nxt) if isinstance(n, ast.Call) and len(reads) == 1 and not any(x is reads[0] for x in ast.walk(n))
@@ -2737,6 +2828,93 @@ def _coalesce_copies(fn, stats):
             stats["copy-coalesced"] = stats.get("copy-coalesced", 0) + 1
 
 
+def _coalesce_branch_copies(fn, stats):
+    """`if c: T = X else: T = E(X)` (every branch ends by binding the new local T, one of them as a plain copy of X) with X never mentioned again
+    afterwards: T is X carried on under another name -- T is renamed to X and the copy disappears (the rebinding of a parameter written without
+    rebinding it)."""
+    params = {a.arg for a in fn.args.posonlyargs + fn.args.args + fn.args.kwonlyargs}
+    for holder, fld, block in list(blocks_of(fn)):
+        for idx, st in enumerate(list(block)):
+            if not (isinstance(st, ast.If) and st.orelse):
+                continue
+            leaves = []
+
+            def collect(ifn):
+                for br in (ifn.body, ifn.orelse):
+                    if len(br) == 1 and isinstance(br[0], ast.If) and br[0].orelse:
+                        if not collect(br[0]):
+                            return False
+                    elif br and isinstance(br[-1], ast.Assign) and len(br[-1].targets) == 1 and isinstance(br[-1].targets[0], ast.Name):
+                        leaves.append(br[-1])
+                    else:
+                        return False
+                return True
+            if not collect(st) or len({l.targets[0].id for l in leaves}) != 1:
+                continue
+            T = leaves[0].targets[0].id
+            copies = [l for l in leaves if isinstance(l.value, ast.Name) and l.value.id != T]
+            if not copies or len({c.value.id for c in copies}) != 1 or T in params:
+                continue
+            X = copies[0].value.id
+            inside = {id(n) for n in ast.walk(st)}
+            before = {id(n) for b in block[:idx] for n in ast.walk(b)}
+            if block is not fn.body:
+                continue
+            if any(isinstance(n, ast.Name) and n.id == X and id(n) not in inside and id(n) not in before for n in ast.walk(fn)):
+                continue        # X is still used afterwards
+            if any(isinstance(n, ast.Name) and n.id == T and (id(n) in before or (id(n) in inside and isinstance(n.ctx, ast.Load))) for n in ast.walk(fn)):
+                continue
+            if any(isinstance(g, FUNC + (ast.Lambda,)) and any(isinstance(y, ast.Name) and y.id in (T, X) for y in ast.walk(g)) for g in ast.walk(fn) if g is not fn):
+                continue
+            for n in ast.walk(fn):
+                if isinstance(n, ast.Name) and n.id == T:
+                    n.id = X
+            for hold2, fld2, b2 in list(blocks_of(st)):
+                for c in list(b2):
+                    if isinstance(c, ast.Assign) and len(c.targets) == 1 and isinstance(c.targets[0], ast.Name) and isinstance(c.value, ast.Name) and c.targets[0].id == c.value.id == X:
+                        if len(b2) == 1:
+                            b2[0] = loc(ast.Pass(), c)
+                        else:
+                            b2.remove(c)
+            stats["branch-copy-coalesced"] = stats.get("branch-copy-coalesced", 0) + 1
+
+
+def _simple_arg_or_item(t):
+    """a plain name / attribute chain, or an item of one addressed by a plain key"""
+    return _simple_arg(t) or isinstance(t, ast.Subscript) and _simple_arg(t.value) and _simple_arg(t.slice)
+
+
+def _pair_loops(fn, stats):
+    """`for e in X.items(): .. e[0] .. e[1] ..` (e used in no other way) is `for k, v in X.items()`."""
+    for n in ast.walk(fn):
+        if isinstance(n, (ast.For, ast.comprehension)) and isinstance(n.target, ast.Name) and isinstance(n.iter, ast.Call) and isinstance(n.iter.func, ast.Attribute) \
+                and n.iter.func.attr == "items" and not n.iter.args:
+            e = n.target.id
+            scope = n if isinstance(n, ast.For) else getattr(n, "_parent", None)
+            if scope is None:
+                continue
+            uses = [x for x in ast.walk(scope) if isinstance(x, ast.Name) and x.id == e and x is not n.target]
+            subs = [x for x in ast.walk(scope) if isinstance(x, ast.Subscript) and isinstance(x.value, ast.Name) and x.value.id == e and isinstance(x.ctx, ast.Load)
+                    and isinstance(x.slice, ast.Constant) and x.slice.value in (0, 1)]
+            if not uses or len(uses) != len(subs) or any(isinstance(x, ast.Name) and x.id == e and x is not n.target for x in ast.walk(fn) if not any(x is u for u in uses)):
+                continue
+            names = {0: f"_{e}_k", 1: f"_{e}_v"}
+            for sub in subs:
+                _replace_node(scope, sub, ast.Name(id=names[sub.slice.value], ctx=ast.Load()))
+            n.target = loc(ast.Tuple(elts=[ast.Name(id=names[0], ctx=ast.Store()), ast.Name(id=names[1], ctx=ast.Store())], ctx=ast.Store()), n.target)
+            stats["pair-indexing->unpacking"] = stats.get("pair-indexing->unpacking", 0) + 1
+            # `x = <key>` / `y = <value>` at the head of the loop body were the names the author wanted: use them for the targets
+            if isinstance(n, ast.For):
+                for st in list(n.body[:2]):
+                    if isinstance(st, ast.Assign) and len(st.targets) == 1 and isinstance(st.targets[0], ast.Name) and isinstance(st.value, ast.Name) and st.value.id in names.values() \
+                            and sum(1 for x in ast.walk(fn) if isinstance(x, ast.Name) and x.id == st.targets[0].id and isinstance(x.ctx, ast.Store)) == 1 and len(n.body) > 1:
+                        old_, new_ = st.value.id, st.targets[0].id
+                        n.body.remove(st)
+                        for x in ast.walk(n):
+                            if isinstance(x, ast.Name) and x.id == old_:
+                                x.id = new_
+
+
 def _get_then_none_test(fn, tree, stats):
     """`X = D.get(K)` directly followed by `if X is not None: BODY` (X read nowhere else) is `if K in D: BODY` with `D[K]` for X -- when
     no store into that table anywhere in the module can put a None there (every `<..>.attr[..] = V` has V a display / constructor call)."""
@@ -3067,6 +3245,11 @@ def normalise(tree, modname, keyword_names=frozenset(), ref=None, stats=None):
     mark_real(tree)
     known = set(ref.get("inventory", {}).get(modname, []))
     _match_as_if(tree, stats)
+    for f_ in ast.walk(tree):          # a bare `return` / `return None` that ends a function body (nested functions included)
+        if isinstance(f_, FUNC):
+            while len(f_.body) > 1 and isinstance(f_.body[-1], ast.Return) and (f_.body[-1].value is None or isinstance(f_.body[-1].value, ast.Constant) and f_.body[-1].value.value is None):
+                f_.body.pop()
+                stats["final-return-none-dropped"] = stats.get("final-return-none-dropped", 0) + 1
     if known:
         _inline_private_context_managers(tree, modname, known, stats)
         _partials_of_new_helpers(tree, modname, known, stats)
@@ -3084,6 +3267,8 @@ def normalise(tree, modname, keyword_names=frozenset(), ref=None, stats=None):
     for q, fn in top_functions(tree, modname):
         _inline_nested_thunks(fn, stats)
         _coalesce_copies(fn, stats)
+        _coalesce_branch_copies(fn, stats)
+        _pair_loops(fn, stats)
         _get_then_none_test(fn, tree, stats)
         for _ in range(2):
             for holder, fld, block in reversed(list(blocks_of(fn))):     # inner blocks first
@@ -3098,6 +3283,7 @@ def normalise(tree, modname, keyword_names=frozenset(), ref=None, stats=None):
         _star_displays(fn, stats)
         for holder, fld, block in reversed(list(blocks_of(fn))):     # idioms that only appear once temporaries are gone
             canon_block(block, fn, stats)
+        _single_use_temps(fn, stats)                                 # ... and the temporaries those idioms leave (an accumulator that became a comprehension)
     if known:
         # helpers that only became directly visible after tables were unrolled / aliases expanded
         attr_access_by_name(tree, stats)
@@ -3382,6 +3568,31 @@ def undo_private_records(trees, ref=None, stats=None):
                 body = _strip_doc(st.body)
                 if body and all(isinstance(b, ast.AnnAssign) and isinstance(b.target, ast.Name) and b.value is None for b in body):
                     records[st.name] = ([b.target.id for b in body], m, st)
+            elif isinstance(st, ast.ClassDef) and _is_private(st.name) and st.name not in known_names and not st.bases and not st.keywords:
+                # a private class that only stores its constructor arguments (__slots__ + __init__, or a dataclass without defaults), optionally with
+                # an as_tuple() accessor, is the same record
+                body = _strip_doc(st.body)
+                deco = [ast.unparse(d.func if isinstance(d, ast.Call) else d) for d in st.decorator_list]
+                if deco and all(d in ("dataclass", "dataclasses.dataclass") for d in deco):
+                    if body and all(isinstance(b, ast.AnnAssign) and isinstance(b.target, ast.Name) and b.value is None for b in body):
+                        records[st.name] = ([b.target.id for b in body], m, st)
+                elif not deco:
+                    init = [b for b in body if isinstance(b, ast.FunctionDef) and b.name == "__init__"]
+                    others = [b for b in body if not (isinstance(b, ast.FunctionDef) and b.name in ("__init__", "as_tuple"))
+                              and not (isinstance(b, ast.Assign) and len(b.targets) == 1 and isinstance(b.targets[0], ast.Name) and b.targets[0].id == "__slots__")]
+                    if len(init) == 1 and not others:
+                        a_ = init[0].args
+                        params = [x.arg for x in a_.args[1:]]
+                        ib = _strip_doc(init[0].body)
+                        plain = not (a_.vararg or a_.kwarg or a_.kwonlyargs or a_.defaults or a_.posonlyargs) and len(ib) == len(params) and all(
+                            isinstance(b, ast.Assign) and len(b.targets) == 1 and isinstance(b.targets[0], ast.Attribute) and isinstance(b.targets[0].value, ast.Name)
+                            and b.targets[0].value.id == a_.args[0].arg and b.targets[0].attr == p_ and isinstance(b.value, ast.Name) and b.value.id == p_
+                            for b, p_ in zip(ib, params))
+                        at = [b for b in body if isinstance(b, ast.FunctionDef) and b.name == "as_tuple"]
+                        at_ok = all(len(_strip_doc(b.body)) == 1 and isinstance(_strip_doc(b.body)[0], ast.Return) and isinstance(_strip_doc(b.body)[0].value, ast.Tuple)
+                                    and [ast.unparse(e) for e in _strip_doc(b.body)[0].value.elts] == [f"{b.args.args[0].arg}.{p_}" for p_ in params] for b in at)
+                        if plain and params and at_ok:
+                            records[st.name] = (params, m, st)
             elif isinstance(st, ast.Assign) and len(st.targets) == 1 and isinstance(st.targets[0], ast.Name) and _is_private(st.targets[0].id) \
                     and st.targets[0].id not in known_names and isinstance(st.value, ast.Call) and ast.unparse(st.value.func) in ("namedtuple", "collections.namedtuple") \
                     and len(st.value.args) == 2 and not st.value.keywords:
@@ -3536,6 +3747,19 @@ def undo_private_records(trees, ref=None, stats=None):
             break
         returns = new
     n_fields = n_ctor = n_unpack = 0
+    # `x.as_tuple()` when only records define as_tuple: the record is the tuple
+    definers = [c.name for t in trees.values() for c in ast.walk(t) if isinstance(c, ast.ClassDef) and any(isinstance(b, ast.FunctionDef) and b.name == "as_tuple" for b in c.body)]
+    if definers and all(d in records for d in definers):
+        for t in trees.values():
+            for n in ast.walk(t):
+                for fld, val in ast.iter_fields(n):
+                    vals = val if isinstance(val, list) else [val]
+                    for k, x in enumerate(vals):
+                        if isinstance(x, ast.Call) and isinstance(x.func, ast.Attribute) and x.func.attr == "as_tuple" and not x.args and not x.keywords:
+                            if isinstance(val, list):
+                                val[k] = x.func.value
+                            else:
+                                setattr(n, fld, x.func.value)
     for f in funcs:
         env = local_env(f)
         if not env:
@@ -3544,6 +3768,14 @@ def undo_private_records(trees, ref=None, stats=None):
             for fld, val in ast.iter_fields(n):
                 vals = val if isinstance(val, list) else [val]
                 for k, x in enumerate(vals):
+                    if isinstance(x, ast.Call) and isinstance(x.func, ast.Attribute) and x.func.attr == "as_tuple" and not x.args and not x.keywords \
+                            and isinstance(x.func.value, ast.Name) and env.get(x.func.value.id) in records:
+                        if isinstance(val, list):
+                            val[k] = x.func.value
+                        else:
+                            setattr(n, fld, x.func.value)
+                        n_fields += 1
+                        continue
                     if isinstance(x, ast.Attribute) and isinstance(x.ctx, ast.Load) and isinstance(x.value, ast.Name) and env.get(x.value.id) in records \
                             and x.attr in records[env[x.value.id]][0]:
                         sub = loc(ast.Subscript(value=x.value, slice=ast.Constant(value=records[env[x.value.id]][0].index(x.attr)), ctx=ast.Load()), x)
